@@ -365,3 +365,22 @@ def cases(rng, tier):
                 items = [[ver, s0 + i, w, F_NET] for i in range(n)]
                 yield ("spanning_cidr", [items, 3], "range_as_sequence")
                 yield ("spanning_cidr", [items, 4], "iterator")
+
+
+# ---- long sequences (hundreds to thousands of blocks): the extremes sit at arbitrary positions of a long input
+_cases_without_big = cases
+
+
+def cases(rng, tier):
+    yield from _cases_without_big(rng, tier)
+    for size in ([120, 700, 2300] if tier == "quick" else [120, 700, 2300, 6000] * 4):
+        for ver in (4, 6):
+            w = gens.W[ver]
+            top = rng.randrange(w - 20)
+            base = rng.getrandbits(w) >> (w - top) << (w - top) if top else 0
+            items = []
+            for _ in range(size):
+                p = rng.choice((w, w, rng.randint(max(top, w - 24), w)))
+                v = base + rng.getrandbits(w - top)
+                items.append([ver, v, p, F_NET])
+            yield ("spanning_cidr", [items, 0], "big")
